@@ -11,6 +11,7 @@ import (
 	"sync"
 	"time"
 	"verif/internal/e1"
+	"verif/internal/e2"
 
 	"github.com/aukilabs/hagall-common/messages/dagazpb"
 
@@ -276,6 +277,49 @@ func init() {
 			func(s *e1.Stats) bool {
 				return s.Accepted["dz_quad"] >= 4 && s.Accepted["dz_info"] >= 1 && s.Accepted["dz_region"] >= 1
 			})
+		partDagazStorm(c, a)
 		return a.finish(c)
 	}
+}
+
+// partDagazStorm: concurrent insertions and queries on one session's grid.
+func partDagazStorm(c *check.Ctx, a *acc) {
+	bin, err := c.WS.Build("lab", "plain")
+	if err != nil {
+		c.Inconc("build failed: " + err.Error())
+		return
+	}
+	n := c.Pick(8, 64)
+	var mu sync.Mutex
+	done, inserted, queries := 0, 0, 0
+	parallel(n, 4, func(i int) {
+		opts := sut.LabOpts{Name: "dagazstorm"}
+		if i%2 == 1 {
+			opts.RT = "jitter"
+		}
+		p, err := c.WS.StartLab(bin, opts)
+		if err != nil {
+			c.Inconc(err.Error())
+			return
+		}
+		defer p.Kill()
+		st := e2.DagazStorm(p, 3+i%4, 20+(i*5)%30, c.Seed*131+int64(i))
+		mu.Lock()
+		defer mu.Unlock()
+		if st.Inconclusive != "" {
+			c.Inconc(st.Inconclusive)
+			return
+		}
+		done++
+		inserted += st.Inserted
+		queries += st.Queries
+		for _, f := range st.Findings {
+			c.Report(f)
+		}
+	})
+	c.Coverage["dagaz_storms"] = done
+	c.Coverage["dagaz_storm_samples_inserted_concurrently"] = inserted
+	c.Coverage["dagaz_storm_query_answers_checked"] = queries
+	a.add(done, done, "E2 dagaz storms: 3-6 members of one session insert 20-50 never-overlapping unit samples each at the same time (grid growing in all directions) while half of them query; then all members pipeline 30 whole-grid queries at once; plane count, every region answer (no plane twice, nothing foreign, exact when nothing is being inserted) and a vertical ray through each sample",
+		map[string]any{"engine": "E2 dagaz storm", "storms": done, "samples": inserted, "answers_checked": queries})
 }
